@@ -253,7 +253,8 @@ def eval_case(case):
                     n_eval += 1
                     is_outer = name.startswith("m") and not name.startswith("mu")
                     if vals != full and not is_outer:
-                        if vals == [-s, s] and massless_any:
+                        if massless_any and {-s, s} <= set(vals) <= set(full) and any(
+                                F(p.spin) == s for p in massless_any):
                             # a massless particle has helicities +-s only; whether leaving
                             # out the other projections is harmless is decided by the
                             # intensity comparison below
